@@ -260,7 +260,9 @@ def judge(case, ref, run):
                      'fired': [[f['phase'], f.get('fn'), f['k']] for f in fired]}
             if is_exc(res):
                 if not is_exc(res, 'InternalError'):
-                    handshake = kind == 'script' and res[1] == 'InvalidPythonEnvironment' and \
+                    # Script() - or a query of a Script bound to a dead helper that asks the
+                    # environment again - starts the replacement; the fault hit its handshake
+                    handshake = res[1] == 'InvalidPythonEnvironment' and \
                         any(f.get('fn') == '_get_info' for f in inflight)
                     problems.append(('wrong_exception:%s%s' % (res[1], '@handshake' if handshake else ''), where))
                     continue
